@@ -52,7 +52,7 @@ __CPROVER_ensures(key != g_mt_key ==>
                          __CPROVER_is_fresh((*p_elem)->value, sizeof(struct alloc_info)) &&
                          MT_INFO((*p_elem)->value)->size == g_mt_oth_size)
                       : *p_elem == NULL))
-__CPROVER_ensures(g_mt_found == *p_elem)
+__CPROVER_ensures(__CPROVER_pointer_equals(g_mt_found, *p_elem))
 ;
 
 /* removal of the element found last; does NOT call the destructors (hash_table.h) */
@@ -60,9 +60,9 @@ int aws_hash_table_remove_element(struct aws_hash_table *map, struct aws_hash_el
 __CPROVER_requires(map == g_mt_allocs)
 __CPROVER_requires(g_mt_locked)
 __CPROVER_requires(p_value != NULL && p_value == g_mt_found)
-__CPROVER_assigns(g_mt_present, g_mt_count, g_mt_sum, g_mt_oth_present, g_mt_found)
+__CPROVER_assigns(g_mt_count, g_mt_sum, g_mt_found; g_mt_found_key == g_mt_key : g_mt_present; g_mt_found_key != g_mt_key : g_mt_oth_present)
 __CPROVER_ensures(__CPROVER_return_value == AWS_OP_SUCCESS)
-__CPROVER_ensures(g_mt_found == NULL)
+__CPROVER_ensures(__CPROVER_pointer_equals(g_mt_found, NULL))
 __CPROVER_ensures(g_mt_count == __CPROVER_old(g_mt_count) - 1)
 __CPROVER_ensures(g_mt_found_key == g_mt_key
     ? (!g_mt_present && g_mt_sum == __CPROVER_old(g_mt_sum) - g_mt_size && g_mt_oth_present == __CPROVER_old(g_mt_oth_present))
@@ -77,13 +77,13 @@ __CPROVER_requires(g_mt_locked)
 __CPROVER_requires(was_created == NULL)
 __CPROVER_requires(key == g_mt_key ==> !g_mt_present)
 __CPROVER_requires(__CPROVER_r_ok(value, sizeof(struct alloc_info)))
-__CPROVER_assigns(g_mt_present, g_mt_val, g_mt_size, g_mt_count, g_mt_sum)
+/* frame: the entry of the watched key is assignable only when the watched key is the one inserted */
+__CPROVER_assigns(g_mt_count, g_mt_sum; key == g_mt_key : g_mt_present, g_mt_val, g_mt_size)
 __CPROVER_ensures(__CPROVER_return_value == AWS_OP_SUCCESS)
 __CPROVER_ensures(g_mt_count == __CPROVER_old(g_mt_count) + 1)
 __CPROVER_ensures(g_mt_sum == __CPROVER_old(g_mt_sum) + MT_INFO(value)->size)
-__CPROVER_ensures(key == g_mt_key
-    ? (g_mt_present && __CPROVER_pointer_equals(g_mt_val, value) && g_mt_size == MT_INFO(value)->size)
-    : (g_mt_present == __CPROVER_old(g_mt_present) && g_mt_val == __CPROVER_old(g_mt_val) && g_mt_size == __CPROVER_old(g_mt_size)))
+__CPROVER_ensures(key == g_mt_key ==>
+    (g_mt_present && __CPROVER_pointer_equals(g_mt_val, value) && g_mt_size == MT_INFO(value)->size))
 ;
 
 /* (the dump also asks its local table of per-stack totals: any answer) */
@@ -127,8 +127,8 @@ __CPROVER_assigns(*map;
                   destroy_value_fn == s_destroy_alloc : g_mt_allocs, g_mt_present, g_mt_count, g_mt_sum;
                   destroy_value_fn == s_destroy_stacktrace : g_mt_stacks, g_mt_stack_entries)
 __CPROVER_ensures(__CPROVER_return_value == AWS_OP_SUCCESS)
-__CPROVER_ensures(destroy_value_fn == s_destroy_alloc ==> (g_mt_allocs == map && !g_mt_present && g_mt_count == 0 && g_mt_sum == 0))
-__CPROVER_ensures(destroy_value_fn == s_destroy_stacktrace ==> (g_mt_stacks == map && g_mt_stack_entries == 0))
+__CPROVER_ensures(destroy_value_fn == s_destroy_alloc ==> (__CPROVER_pointer_equals(g_mt_allocs, map) && !g_mt_present && g_mt_count == 0 && g_mt_sum == 0))
+__CPROVER_ensures(destroy_value_fn == s_destroy_stacktrace ==> (__CPROVER_pointer_equals(g_mt_stacks, map) && g_mt_stack_entries == 0))
 ;
 
 /* clean_up: every entry is removed and its value handed to the value destructor once.  (Called by destroy on
@@ -175,8 +175,8 @@ __CPROVER_requires(__CPROVER_is_fresh(tracer, sizeof(*tracer)))
 __CPROVER_requires(MT_TRACER_OK(tracer))
 __CPROVER_requires(MT_VIEW_OK)
 __CPROVER_requires(MT_TRACED(tracer) && ptr == g_mt_key ==> !g_mt_present)
-__CPROVER_assigns(MT_TRACED(tracer) : tracer->allocated, g_mt_present, g_mt_val, g_mt_size, g_mt_count, g_mt_sum,
-                  g_mt_locked, g_mt_lock_calls;
+__CPROVER_assigns(MT_TRACED(tracer) : tracer->allocated, g_mt_count, g_mt_sum, g_mt_locked, g_mt_lock_calls;
+                  MT_TRACED(tracer) && ptr == g_mt_key : g_mt_present, g_mt_val, g_mt_size;
                   tracer->level == AWS_MEMTRACE_STACKS : g_mt_stack_entries, g_mt_stack_elem, g_mt_stack_created)
 __CPROVER_ensures(!g_mt_locked)
 /* level STACKS: the stack record of a newly seen stack holds between 1 and frames_per_stack frames (its storage has room
@@ -208,8 +208,9 @@ __CPROVER_requires(ptr == NULL || ptr != g_mt_released)
 __CPROVER_requires(__CPROVER_is_fresh(tracer, sizeof(*tracer)))
 __CPROVER_requires(MT_TRACER_OK(tracer))
 __CPROVER_requires(MT_VIEW_OK)
-__CPROVER_assigns(MT_TRACED(tracer) : tracer->allocated, g_mt_present, g_mt_count, g_mt_sum, g_mt_oth_present, g_mt_oth_size,
-                  g_mt_found, g_mt_found_key, g_mt_locked, g_mt_lock_calls)
+__CPROVER_assigns(MT_TRACED(tracer) : tracer->allocated, g_mt_count, g_mt_sum, g_mt_oth_present, g_mt_oth_size,
+                  g_mt_found, g_mt_found_key, g_mt_locked, g_mt_lock_calls;
+                  MT_TRACED(tracer) && ptr == g_mt_key : g_mt_present)
 __CPROVER_frees(MT_TRACED(tracer) && ptr == g_mt_key && g_mt_present : g_mt_val)
 __CPROVER_ensures(!g_mt_locked)
 __CPROVER_ensures(MT_TRACED(tracer) && ptr == g_mt_key && __CPROVER_old(g_mt_present) ==>
@@ -385,7 +386,7 @@ __CPROVER_requires(__CPROVER_w_ok(map, sizeof(*map)) && map != g_mt_allocs && ma
 __CPROVER_requires(alloc == &g_mt_default_allocator)
 __CPROVER_requires(hash_fn == aws_hash_ptr && equals_fn == aws_ptr_eq && destroy_key_fn == NULL && destroy_value_fn == s_stack_info_destroy)
 __CPROVER_assigns(*map, g_mt_stack_info)
-__CPROVER_ensures(__CPROVER_return_value == AWS_OP_SUCCESS && g_mt_stack_info == map)
+__CPROVER_ensures(__CPROVER_return_value == AWS_OP_SUCCESS && __CPROVER_pointer_equals(g_mt_stack_info, map))
 ;
 
 /* iteration.  Call-site obligation: over tracer->allocs only the two callbacks that the units cb_collect_stack_stats /
@@ -420,7 +421,7 @@ void mt_dump_table_clean_up(struct aws_hash_table *map)
 __CPROVER_requires(g_mt_locked)
 __CPROVER_requires(g_mt_stack_info != NULL && map == g_mt_stack_info)
 __CPROVER_assigns(*map, g_mt_stack_info)
-__CPROVER_ensures(g_mt_stack_info == NULL)
+__CPROVER_ensures(__CPROVER_pointer_equals(g_mt_stack_info, NULL))
 ;
 
 /* priority queues of pointers (one in use at a time) */
@@ -435,7 +436,7 @@ __CPROVER_requires(__CPROVER_w_ok(queue, sizeof(*queue)))
 __CPROVER_requires(alloc == &g_mt_default_allocator && item_size == sizeof(void *))
 __CPROVER_requires(pred == s_alloc_compare || pred == s_stack_info_compare_size || pred == s_stack_info_compare_count)
 __CPROVER_assigns(*queue, g_mt_pq, g_mt_pq_size)
-__CPROVER_ensures(__CPROVER_return_value == AWS_OP_SUCCESS && g_mt_pq == queue && g_mt_pq_size == 0)
+__CPROVER_ensures(__CPROVER_return_value == AWS_OP_SUCCESS && __CPROVER_pointer_equals(g_mt_pq, queue) && g_mt_pq_size == 0)
 ;
 size_t aws_priority_queue_size(const struct aws_priority_queue *queue)
 __CPROVER_requires(g_mt_pq != NULL && queue == g_mt_pq)
@@ -455,7 +456,7 @@ __CPROVER_ensures(!g_mt_dump_stacks ==> MT_INFO(*(void **)item)->stack == 0)
 void aws_priority_queue_clean_up(struct aws_priority_queue *queue)
 __CPROVER_requires(g_mt_pq != NULL && queue == g_mt_pq)
 __CPROVER_assigns(*queue, g_mt_pq)
-__CPROVER_ensures(g_mt_pq == NULL)
+__CPROVER_ensures(__CPROVER_pointer_equals(g_mt_pq, NULL))
 ;
 int aws_priority_queue_push(struct aws_priority_queue *queue, void *item)
 __CPROVER_requires(g_mt_pq != NULL && queue == g_mt_pq)
